@@ -267,7 +267,7 @@ theorem C04_same_content_as_default_config_file :
     any of these breaks this theorem, i.e. the tie between the model and the code. -/
 theorem C04_transcription_pin :
     SourcesOrder.mergeCalls = ["_parse_defaults_and_environ: merge_config(cfg_env, cfg)", "parse_args: merge_config(namespace, cfg)", "parse_object: merge_config(cfg_base, cfg)", "parse_object: merge_config(cfg_apply, cfg)", "parse_string: merge_config(cfg, cfg_base)", "get_defaults: merge_config(cfg_file, cfg)", "apply_config: merge_config(cfg_file, cfg)"] ∧
-    SourcesOrder.applyConfigTail = ["cfg_merged = parser.merge_config(cfg_file, cfg)", "cfg.__dict__.update(cfg_merged.__dict__)", "if cfg.get(dest) is None", "cfg[dest] = []", "cfg[dest].append(cfg_path)"] ∧
+    SourcesOrder.applyConfigTail = ["cfg_merged = parser.merge_config(cfg_file, cfg)", "cfg.__dict__.update(cfg_merged.__dict__)", "if not isinstance(cfg.get(dest), list)", "cfg[dest] = []", "cfg[dest].append(cfg_path)"] ∧
     SourcesOrder.mergeConfigBody = ["cfg_from = cfg_from.clone()", "cfg_to = cfg_to.clone()", "ActionTypeHint.discard_init_args_on_class_path_change(self, cfg_to, cfg_from)", "cfg_to.update(cfg_from)", "ActionTypeHint.apply_appends(self, cfg_to)", "return cfg_to"] ∧
     SourcesOrder.defaultsAndEnvironBody = ["cfg = Namespace()", "if defaults", "cfg = self.get_defaults(skip_validation=True)", "if env or (env is None and self._default_env)", "if environ is None", "environ = os.environ", "cfg_env = self._load_env_vars(env=environ, defaults=defaults)", "cfg = self.merge_config(cfg_env, cfg)", "return cfg"] ∧
     SourcesOrder.envLoops = ["for action in actions: env_var in env and isinstance(action, ActionConfigFile)", "for action in actions: env_var in env and isinstance(action, _ActionSubCommands)", "for action in actions: env_var in env and (not isinstance(action, (ActionConfigFile, _ActionSubCommands)))"] ∧
